@@ -31,6 +31,7 @@ type localCfg struct {
 	maj23   bool // also offer peer +2/3 claims (VoteSetMaj23) and re-delivery of equivocating votes
 	nodrain bool // own messages are handled as explicit inputs (StepInternal) instead of immediately
 	late    bool // also offer superseded timeouts arriving late (each at most once)
+	h2      bool // the search runs at height 2: the node first commits height 1 honestly (state carried across the height change)
 	depth   int
 	maxSt   int
 	prefix  []string // scripted inputs (by name) leading to the state the BFS starts from
@@ -173,6 +174,8 @@ type localInst struct {
 	commits  int
 	height   uint64
 	toDone   map[int]bool // indices of the ticker's log that were delivered (fired in time, or late)
+	st       cs.NewStatus // chain status at the height of the search (who proposes when)
+	baseCom  int          // commits before the search started
 }
 
 // lateCandidates: the timeouts the ticker accepted that were neither delivered nor are the pending one, oldest first.
@@ -206,22 +209,92 @@ func newLocal(c *localCfg, f *csnet.Fixture) *localInst {
 		parts  [2]*types.PartSet
 		ids    [3]types.BlockID
 	}
+	li.st = f.GenesisStatus()
+	var lc *types.Commit
+	if c.h2 {
+		lc = li.commitHeight1()
+	}
 	if x, ok := blockCache.Load(c.name); ok {
 		cd := x.(*cand)
 		li.blocks, li.parts, li.ids = cd.blocks, cd.parts, cd.ids
 	} else {
-		st := f.GenesisStatus()
 		for b := 0; b < 2; b++ {
 			app := csnet.NewTrivApp(f.Vals, uint64(b+1))
-			li.blocks[b], li.parts[b] = f.MakeBlock(st, app, 0, nil, nil)
+			for h, blk := range li.n.App.Blocks {
+				app.Blocks[h] = blk
+			}
+			li.blocks[b], li.parts[b] = f.MakeBlock(li.st, app, 0, lc, nil)
 			li.ids[b] = csnet.BlockID(li.blocks[b], li.parts[b])
 		}
 		blockCache.Store(c.name, &cand{li.blocks, li.parts, li.ids})
+	}
+	if li.parts[0].Total() != 1 || li.parts[1].Total() != 1 {
+		vk.Fatalf("local/%s: the candidate blocks must fit one part (the alphabet has one BlockPart letter per block)", c.name)
 	}
 	for _, p := range c.powers {
 		li.total += p
 	}
 	return li
+}
+
+// commitHeight1 drives the node through an honest height 1 (proposal, block, two more prevotes, two more precommits) and
+// leaves it at the start of height 2; returns the commit the node saw (the LastCommit of height-2 blocks).
+func (li *localInst) commitHeight1() *types.Commit {
+	n, f := li.n, li.f
+	st := f.GenesisStatus()
+	p0 := f.ProposerAt(st, 0)
+	if p0 == li.c.self {
+		vk.Fatalf("local/%s: the height-2 searches need a node that does not propose height 1 round 0", li.c.name)
+	}
+	type h1 struct {
+		parts *types.PartSet
+		id    types.BlockID
+		prop  *types.Proposal
+		votes []*types.Vote
+	}
+	var x *h1
+	if c, ok := blockCache.Load(li.c.name + "/h1"); ok {
+		x = c.(*h1)
+	} else {
+		x = &h1{}
+		var b *types.Block
+		b, x.parts = f.MakeBlock(st, csnet.NewTrivApp(f.Vals, 1), 0, nil, nil)
+		x.id = csnet.BlockID(b, x.parts)
+		x.prop = f.Proposal(p0, 1, 0, x.parts.Header(), -1, types.BlockID{})
+		cnt := 0
+		for j := range li.c.powers {
+			if j != li.c.self && cnt < 2 {
+				cnt++
+				x.votes = append(x.votes, f.Vote(j, 1, 0, types.VoteTypePrevote, x.id), f.Vote(j, 1, 0, types.VoteTypePrecommit, x.id))
+			}
+		}
+		blockCache.Store(li.c.name+"/h1", x)
+	}
+	n.FireTimeout()
+	n.Drain()
+	n.Deliver(&cs.ProposalMessage{Proposal: x.prop}, "env")
+	n.Drain()
+	for i := 0; i < x.parts.Total(); i++ {
+		n.Deliver(&cs.BlockPartMessage{Height: 1, Round: 0, Part: x.parts.GetPart(i)}, "env")
+		n.Drain()
+	}
+	for _, t := range []byte{types.VoteTypePrevote, types.VoteTypePrecommit} {
+		for _, v := range x.votes {
+			if v.Type == t {
+				n.Deliver(&cs.VoteMessage{Vote: v}, "env")
+				n.Drain()
+			}
+		}
+	}
+	if n.App.Height() != 1 || n.CS.GetRoundState().Height != 2 {
+		vk.Fatalf("local/%s: the scripted height 1 did not commit (app height %d, consensus height %d)", li.c.name, n.App.Height(), n.CS.GetRoundState().Height)
+	}
+	li.height = 2
+	li.st = n.VerifStatus()
+	li.sentSeen = len(n.Sent)
+	li.commits = len(n.App.Commits)
+	li.baseCom = len(n.App.Commits)
+	return n.App.Seen[1]
 }
 
 func (li *localInst) record(vs vsKey, j int, val string) {
@@ -255,7 +328,7 @@ func (li *localInst) vote(j, r int, t byte, v int) *types.Vote {
 	if x, ok := voteCache.Load(k); ok {
 		return x.(*types.Vote)
 	}
-	vt := li.f.Vote(j, 1, r, t, li.ids[v])
+	vt := li.f.Vote(j, li.height, r, t, li.ids[v])
 	voteCache.Store(k, vt)
 	return vt
 }
@@ -296,7 +369,7 @@ func (li *localInst) apply(in input) bool {
 			return false
 		}
 	case inProposalBlock, inProposalOnly:
-		p := li.f.ProposerAt(li.f.GenesisStatus(), in.r)
+		p := li.f.ProposerAt(li.st, in.r)
 		if p == li.c.self {
 			return false
 		}
@@ -309,7 +382,7 @@ func (li *localInst) apply(in input) bool {
 			if in.pol >= 0 {
 				polID = li.ids[in.blk]
 			}
-			prop = li.f.Proposal(p, 1, in.r, li.parts[in.blk].Header(), in.pol, polID)
+			prop = li.f.Proposal(p, li.height, in.r, li.parts[in.blk].Header(), in.pol, polID)
 			propCache.Store(k, prop)
 		}
 		n.Deliver(&cs.ProposalMessage{Proposal: prop}, "env")
@@ -317,10 +390,10 @@ func (li *localInst) apply(in input) bool {
 			if !li.c.nodrain {
 				n.Drain()
 			}
-			n.Deliver(&cs.BlockPartMessage{Height: 1, Round: in.r, Part: li.parts[in.blk].GetPart(0)}, "env")
+			n.Deliver(&cs.BlockPartMessage{Height: li.height, Round: in.r, Part: li.parts[in.blk].GetPart(0)}, "env")
 		}
 	case inPartOnly:
-		n.Deliver(&cs.BlockPartMessage{Height: 1, Round: 0, Part: li.parts[in.blk].GetPart(0)}, "env")
+		n.Deliver(&cs.BlockPartMessage{Height: li.height, Round: 0, Part: li.parts[in.blk].GetPart(0)}, "env")
 	case inMaj23:
 		k := fmt.Sprintf("%d/%d/%d", in.r, in.typ, in.blk)
 		if li.claims[k] || len(li.claims) >= 2 {
@@ -601,9 +674,9 @@ func runLocal(r *vk.Run, c *localCfg) vk.Result {
 					r.Capped(fmt.Sprintf("local/%s: the scripted prefix reached %q, meant to reach %q", c.name, got, c.expect))
 				}
 			}
-			if len(li.n.App.Commits) > 0 {
-				// committed: terminal for this search (the next height is explored from scripted prefixes)
-				return vk.Outcome{Key: "COMMITTED " + fmt.Sprintf("%x", li.n.App.Commits[0].Hash.Bytes()[:6]), Terminal: true}
+			if len(li.n.App.Commits) > li.baseCom {
+				// committed: terminal for this search (the next height is explored by the height-2 searches)
+				return vk.Outcome{Key: "COMMITTED " + fmt.Sprintf("%x", li.n.App.Commits[li.baseCom].Hash.Bytes()[:6]), Terminal: true}
 			}
 			return vk.Outcome{Key: li.key()}
 		},
@@ -702,6 +775,10 @@ func localConfigs(r *vk.Run) []*localCfg {
 		late: true, depth: r.Pick(4, 6), maxSt: r.Pick(60000, 1500000), expect: "R0 S1 lock=- | "})
 	out = append(out, &localCfg{name: fmt.Sprintf("eq4/self%d(non-proposer)/sym/late-timeouts/locked-A-r0", other), powers: eq, self: other, rounds: 2, sym: true,
 		late: true, depth: r.Pick(4, 6), maxSt: r.Pick(60000, 1500000), prefix: prefixes[2].pre, expect: prefixes[2].expect})
+	// height 2: everything a node carries across a height change (lock, valid block, vote sets, last commit, proposer
+	// rotation, timeouts of the old height still in flight) after an honest height 1
+	out = append(out, &localCfg{name: fmt.Sprintf("eq4/self%d(non-proposer-of-h1)/sym/height2+late-timeouts/init", other), powers: eq, self: other, rounds: 2, sym: true,
+		h2: true, late: true, depth: r.Pick(4, 6), maxSt: r.Pick(60000, 1500000), expect: "R0 S1 lock=- | "})
 	if !r.Quick() {
 		// the node is the proposer of round 0 / round 1 (its own block O enters the alphabet implicitly)
 		for _, self := range []int{p0, p1} {
